@@ -62,6 +62,10 @@ def step (t : List String) : String :=
         | none => "none"
         | some (h, w, lat, wvl, vals, warned, _, _, _, _) => fmtRead (some (h, w, lat, wvl, vals, warned)))
     | _, _ => "bad-op"
+  | ["cvpre", hex] =>
+    match cvPreamble ((unhex hex).map Char.ofNat) with
+    | none => "none"
+    | some (title, hdr, data) => s!"{hexOf (title.map Char.toNat)} {hexOf (hdr.map Char.toNat)} {data.length} ."
   | ["zmeta", hex] =>
     let f := unhex hex
     " ".intercalate ((table.filter (fun r => !r.isPad)).map fun r =>
